@@ -9,6 +9,9 @@ items = []
 for meta in sorted(glob.glob("/verif/seeded/*/meta.json")):
     m = json.load(open(meta))
     d = os.path.dirname(meta)
+    if m.get("status_on_head") in ("neutralised", "moved"):
+        print(m["seed_id"], "-", m["status_on_head"], "on HEAD:", m["status_on_head_note"][:120], flush=True)
+        continue
     for s in seeds:
         # patch_head.diff = the same change re-applied by hand on today's code, for patches that collide with a later fix
         ported = os.path.join(d, "patch_head.diff")
